@@ -2,13 +2,14 @@
    ir -> outcome (artefact * ir) (the IR as the call leaves it); run_shared threads one IR through a list
    of calls, run_fresh gives every call the original.  Definitions only.
 
-   The docstring layer (to_docstring, emit.docstring) is another builder's model: here it is a parameter
-   of the section (td, dsf, doc_op), as it is an explicit input of the EmitAst emitters.  What EmitAst
-   itself writes into the shared IR is modelled exactly:
+   What the EmitAst emitters write into the shared IR (modelled exactly, compared with the caller's IR after
+   every call by the emitast correspondence family):
    - emit.class_ : nothing (it deep-copies its argument first);
-   - emit.function : only what to_docstring writes;
-   - emit.argparse_function : param2argparse_param's setdefault("typ", "Any"), the "<class '..'>" unwrapping
-     of typ, and setdefault("doc", ""). *)
+   - emit.function : nothing (to_docstring works on copies of the param dicts);
+   - emit.argparse_function : nothing (param2argparse_param works on a copy of the param dict).
+   The docstring layer is another builder's model: the TEXT to_docstring / emit.docstring return is a
+   parameter (td, dsf), and emit.docstring as a fourth call on the shared IR is the abstract doc_op, which
+   returns the IR as it leaves it (emit_param_str -> set_default_doc still writes into the param dicts). *)
 From Coq Require Import List Ascii Bool Arith ZArith.
 From Coq Require String.
 Import String.StringSyntax.
@@ -41,34 +42,12 @@ Inductive artefact : Type :=
 
 Definition is_argparse (o : op) : bool := match o with OpArgparse _ _ _ _ _ => true | _ => false end.
 Definition is_class (o : op) : bool := match o with OpClass _ _ _ _ _ _ => true | _ => false end.
-Definition uses_shared_docstring (o : op) : bool :=
-  match o with OpFunction _ _ _ _ _ _ _ _ | OpDocstring _ => true | _ => false end.
-
-(* what param2argparse_param leaves in a param dict *)
-Definition argparse_footprint (g : gparam) : gparam :=
-  let t1 := match g_typ g with
-            | Missing => Has (L "Any")
-            | Has t => if startswith class_prefix t
-                       then Has (slice t (List.length class_prefix) (List.length t - 2)) else Has t
-            | FNone => FNone
-            end in
-  mkG (match g_doc g with Missing => Has [] | d => d end) t1 (g_default g).
-
-Definition param_argparse_stable (g : gparam) : bool :=
-  match g_typ g with
-  | Missing => false
-  | Has t => negb (startswith class_prefix t)
-  | FNone => true
-  end
-  && match g_doc g with Missing => false | _ => true end.
-
-(* every parameter has a typ key (not of the "<class '..'>" form) and a doc key *)
-Definition argparse_stable (i : ir) : bool := forallb (fun kv => param_argparse_stable (snd kv)) (ir_params i).
+Definition is_docstring (o : op) : bool := match o with OpDocstring _ => true | _ => false end.
 
 Section C13.
   Variable pt : ptable.
-  (* to_docstring(ir, opts): text and the IR as left behind *)
-  Variable td : td_opts -> ir -> outcome (str * ir).
+  (* to_docstring(ir, opts): the text *)
+  Variable td : td_opts -> ir -> outcome str.
   (* emit.docstring(argparse_doc_ir ir, word_wrap=..) inside argparse_function (its argument is a fresh dict) *)
   Variable dsf : bool -> ir -> outcome str.
   (* emit.docstring(ir, opts) as a call on the shared IR *)
@@ -108,34 +87,40 @@ Section C13.
     fold_left (fun acc o => do st <- acc; do x <- run_op o (snd st); Ok (fst st ++ [fst x], snd x))
               ops (Ok ([], i)).
 
-  (* the docstring layer leaves this IR as it found it *)
-  Definition td_stable_on (i : ir) : Prop :=
-    (forall o t i', td o i = Ok (t, i') -> i' = i)
-    /\ (forall o t i', doc_op o i = Ok (t, i') -> i' = i).
+  (* emit.docstring leaves this IR as it found it *)
+  Definition doc_stable_on (i : ir) : Prop := forall o t i', doc_op o i = Ok (t, i') -> i' = i.
 End C13.
 
-Definition C13_statement : Prop :=
-  forall pt td dsf doc_op ops i, run_shared pt td dsf doc_op ops i = run_fresh pt td dsf doc_op ops i.
+(* emit.docstring never writes into the IR it is given *)
+Definition doc_pure (doc_op : doc_opts -> ir -> outcome (str * ir)) : Prop :=
+  forall o i t i', doc_op o i = Ok (t, i') -> i' = i.
 
-(* ------------------------------------------------------------------ guard and finding classes *)
+(* the full statement: every call of every sequence (any length, any options) over the four emitters gives
+   the artefact it gives on a fresh copy; whatever text the docstring layer returns *)
+Definition C13_statement : Prop :=
+  forall pt td dsf doc_op, doc_pure doc_op ->
+    forall ops i, run_shared pt td dsf doc_op ops i = run_fresh pt td dsf doc_op ops i.
+
+(* the three AST emitters alone: no assumption at all *)
+Definition C13_emitters_statement : Prop :=
+  forall pt td dsf doc_op ops i, existsb is_docstring ops = false ->
+    run_shared pt td dsf doc_op ops i = run_fresh pt td dsf doc_op ops i.
+
+(* ------------------------------------------------------------------ finding classes *)
 Inductive c13_class : Type :=
-| K_docstring_rewrites_ir      (* to_docstring / emit.docstring changed doc/default of the shared param dicts (observed) *)
-| K_argparse_setdefault.       (* argparse_function wrote typ="Any" / unwrapped "<class ..>" / doc="" into the shared params *)
+| K_docstring_rewrites_ir.     (* emit.docstring (emit_param_str -> set_default_doc) rewrote doc/default of the shared
+                                  param dicts: doc_pure is false of the implementation (observed by the harness) *)
 
 Definition c13_class_name (k : c13_class) : str :=
   match k with
   | K_docstring_rewrites_ir => L "docstring-rewrites-shared-ir"
-  | K_argparse_setdefault => L "argparse-setdefault-leaks"
   end.
 
-(* td_mutated: did a docstring-layer call on the shared object change it in this run (observed by the harness) *)
-Definition finding_class_C13 (ops : list op) (i : ir) (td_mutated : bool) : option c13_class :=
-  if existsb is_argparse ops && negb (argparse_stable i) then Some K_argparse_setdefault
-  else if td_mutated then Some K_docstring_rewrites_ir
-  else None.
+(* doc_mutated: did an emit.docstring call on the shared object change it in this run (observed by the harness) *)
+Definition finding_class_C13 (ops : list op) (i : ir) (doc_mutated : bool) : option c13_class :=
+  if existsb is_docstring ops && doc_mutated then Some K_docstring_rewrites_ir else None.
 
-Definition guard_C13 (ops : list op) (i : ir) : bool :=
-  negb (existsb is_argparse ops) || argparse_stable i.
+Definition guard_C13 (ops : list op) : bool := negb (existsb is_docstring ops).
 
 (* ------------------------------------------------------------------ wire *)
 Definition dec_op (e : sexp) : option op :=
@@ -183,11 +168,6 @@ Definition run_c13 (fn : sexp) (args : list sexp) : option sexp :=
         Some (enc_option (fun k => enc_str (c13_class_name k)) (finding_class_C13 ops i m))
       | _, _, _ => None
       end
-    | _ => None
-    end
-  else if is_sym "c13_argparse_footprint" fn then
-    match args with
-    | [g] => match dec_gparam g with Some g => Some (enc_gparam (argparse_footprint g)) | None => None end
     | _ => None
     end
   else None.
